@@ -111,17 +111,24 @@ static int run_lu(Rng& rng) {
         int n = (c < 6) ? c + 1 : rng.range(1, thorough() ? 40 : 24);
         double density = rng.real(0.05, 0.6);
         bool scaled = rng.range(0, 3) == 0;
+        // every 5th case: rows scaled over ~20 orders of magnitude (down to ~1e-11, pivots stay above the solver's absolute
+        // 1e-12 threshold of finding F4) with weak couplings (1e-1 .. 1e-4 of the diagonal)
+        bool wide = (c % 5 == 4);
+        if (wide) scaled = true;
         // dense pattern first, then strictly row-dominant diagonal
         std::vector<std::vector<double>> A(n, std::vector<double>(n, 0.0));
         std::vector<std::vector<char>> stored(n, std::vector<char>(n, 0));
         for (int i = 0; i < n; i++)
             for (int j = 0; j < n; j++)
-                if (i != j && rng.unit() < density) { stored[i][j] = 1; A[i][j] = (rng.range(0, 7) == 0) ? 0.0 : rng.nice(-2.0, 2.0); } // explicit zeros
+                if (i != j && rng.unit() < density) {
+                    stored[i][j] = 1; A[i][j] = (rng.range(0, 7) == 0) ? 0.0 : rng.nice(-2.0, 2.0); // explicit zeros
+                    if (wide) A[i][j] *= std::pow(10.0, -rng.range(1, 4));
+                }
         for (int i = 0; i < n; i++) {
             double off = 0; for (int j = 0; j < n; j++) off += std::fabs(A[i][j]);
             A[i][i] = (off + rng.nice(0.25, 2.0)) * (rng.coin() ? 1.0 : -1.0); stored[i][i] = 1;
         }
-        if (scaled) for (int i = 0; i < n; i++) { double sc = std::ldexp(1.0, rng.range(-26, 26)); for (int j = 0; j < n; j++) A[i][j] *= sc; }
+        if (scaled) for (int i = 0; i < n; i++) { double sc = std::ldexp(1.0, wide ? rng.range(-36, 30) : rng.range(-26, 26)); for (int j = 0; j < n; j++) A[i][j] *= sc; }
         // storage order: shuffled within each row (unsorted column indices)
         std::vector<std::tuple<int, int, double>> trip;
         std::vector<double> vals; std::vector<int> cols, starts{0};
